@@ -82,6 +82,45 @@ package destructive
 //@ spec 	}
 //@ spec 	return gvcDropsTable(f, sc.Changes[n-1]) || gvcAnyDropsTable(f, sc, n-1)
 //@ spec }
+//@ rec gvcAnyDropsSchema fuel
+//@ spec func gvcAnyDropsSchema(f *sqlcheck.File, sc *sqlcheck.Change, n int) bool {
+//@ spec 	if n <= 0 {
+//@ spec 		return false
+//@ spec 	}
+//@ spec 	return gvcDropsSchema(f, sc.Changes[n-1]) || gvcAnyDropsSchema(f, sc, n-1)
+//@ spec }
+// a ModifyTable drops a (non-temporary, non-virtual) column among its first n changes
+//@ rec gvcAnyColDrop fuel
+//@ spec func gvcAnyColDrop(f *sqlcheck.File, m *schema.ModifyTable, n int) bool {
+//@ spec 	if n <= 0 {
+//@ spec 		return false
+//@ spec 	}
+//@ spec 	return gvcDropsColumn(f, m.T, m.Changes[n-1]) || gvcAnyColDrop(f, m, n-1)
+//@ spec }
+//@ rec gvcModDrops
+//@ spec func gvcModDrops(f *sqlcheck.File, c schema.Change) bool {
+//@ spec 	m, ok := c.(*schema.ModifyTable)
+//@ spec 	return ok && gvcAnyColDrop(f, m, len(m.Changes))
+//@ spec }
+//@ rec gvcAnyModDrops fuel
+//@ spec func gvcAnyModDrops(f *sqlcheck.File, sc *sqlcheck.Change, n int) bool {
+//@ spec 	if n <= 0 {
+//@ spec 		return false
+//@ spec 	}
+//@ spec 	return gvcModDrops(f, sc.Changes[n-1]) || gvcAnyModDrops(f, sc, n-1)
+//@ spec }
+// the statement contains a destructive change among its first n changes
+//@ spec func gvcDestructive(f *sqlcheck.File, sc *sqlcheck.Change, n int) bool {
+//@ spec 	return gvcAnyDropsTable(f, sc, n) || gvcAnyDropsSchema(f, sc, n) || gvcAnyModDrops(f, sc, n)
+//@ spec }
+// none of the first n statements of the file is destructive
+//@ rec gvcNoneDestructive fuel
+//@ spec func gvcNoneDestructive(f *sqlcheck.File, n int) bool {
+//@ spec 	if n <= 0 {
+//@ spec 		return true
+//@ spec 	}
+//@ spec 	return !gvcDestructive(f, f.Changes[n-1], len(f.Changes[n-1].Changes)) && gvcNoneDestructive(f, n-1)
+//@ spec }
 //@ spec func gvcHasDiag(ds []sqlcheck.Diagnostic, code string, pos int) bool {
 //@ spec 	return (some k int :: 0 <= k && k < len(ds) && ds[k].Code == code && ds[k].Pos == pos)
 //@ spec }
@@ -98,13 +137,46 @@ package destructive
 //@   ensures failing-status-iff-reported: (err != nil) == (GvcReports == old(GvcReports)+1 && sqlx.V(a.Error))
 //@   loop 1 invariant (forall i int :: 0 <= i && i < loopk && gvcAnyDropsTable(p.File, p.File.Changes[i], len(p.File.Changes[i].Changes)) ==>
 //@           gvcHasDiag(diags, codeDropT, p.File.Changes[i].Stmt.Pos))
-//@   loop 2 invariant 0 <= loopi1 && loopi1 < len(p.File.Changes) && 0 <= loopk && loopk <= len(p.File.Changes[loopi1].Changes)
+//@   loop 2 common 0 <= loopi1 && loopi1 < len(p.File.Changes) && 0 <= loopk && loopk <= len(p.File.Changes[loopi1].Changes)
 //@   loop 2 invariant (forall i int :: 0 <= i && i < loopi1 && gvcAnyDropsTable(p.File, p.File.Changes[i], len(p.File.Changes[i].Changes)) ==>
 //@           gvcHasDiag(diags, codeDropT, p.File.Changes[i].Stmt.Pos))
 //@   loop 2 invariant gvcAnyDropsTable(p.File, p.File.Changes[loopi1], loopk) ==> gvcHasDiag(diags, codeDropT, p.File.Changes[loopi1].Stmt.Pos)
 //@   loop 1 localwrites
 //@   loop 2 localwrites
 //@   loop 3 localwrites
-//@   loop 1 invariant (diags == nil || GvcFresh(diags)) && (edits == nil || GvcFresh(edits))
-//@   loop 2 invariant (diags == nil || GvcFresh(diags)) && (edits == nil || GvcFresh(edits))
-//@   loop 3 invariant (diags == nil || GvcFresh(diags)) && (edits == nil || GvcFresh(edits)) && (names == nil || GvcFresh(names))
+//@   loop 1 common (diags == nil || GvcFresh(diags)) && (edits == nil || GvcFresh(edits))
+//@   loop 2 common (diags == nil || GvcFresh(diags)) && (edits == nil || GvcFresh(edits))
+//@   loop 3 common (diags == nil || GvcFresh(diags)) && (edits == nil || GvcFresh(edits)) && (names == nil || GvcFresh(names))
+
+// Views: further contracts of Analyze, verified separately (they share the pre-condition, the
+// frame and the `common` invariants of the contract above).
+//@ func (a *Analyzer) Analyze__view_schemas(ctx context.Context, p *sqlcheck.Pass) (err error)
+//@   ensures drop-schema-flagged-at-its-statement: (forall i int :: 0 <= i && i < len(p.File.Changes) &&
+//@           gvcAnyDropsSchema(p.File, p.File.Changes[i], len(p.File.Changes[i].Changes)) ==>
+//@           GvcReports == old(GvcReports)+1 && gvcHasDiag(GvcLastReport.Diagnostics, codeDropS, p.File.Changes[i].Stmt.Pos))
+//@   loop 1 invariant (forall i int :: 0 <= i && i < loopk && gvcAnyDropsSchema(p.File, p.File.Changes[i], len(p.File.Changes[i].Changes)) ==>
+//@           gvcHasDiag(diags, codeDropS, p.File.Changes[i].Stmt.Pos))
+//@   loop 2 invariant (forall i int :: 0 <= i && i < loopi1 && gvcAnyDropsSchema(p.File, p.File.Changes[i], len(p.File.Changes[i].Changes)) ==>
+//@           gvcHasDiag(diags, codeDropS, p.File.Changes[i].Stmt.Pos))
+//@   loop 2 invariant gvcAnyDropsSchema(p.File, p.File.Changes[loopi1], loopk) ==> gvcHasDiag(diags, codeDropS, p.File.Changes[loopi1].Stmt.Pos)
+
+//@ func (a *Analyzer) Analyze__view_columns(ctx context.Context, p *sqlcheck.Pass) (err error)
+//@   ensures drop-column-flagged-at-its-statement: (forall i int :: 0 <= i && i < len(p.File.Changes) &&
+//@           gvcAnyModDrops(p.File, p.File.Changes[i], len(p.File.Changes[i].Changes)) ==>
+//@           GvcReports == old(GvcReports)+1 && gvcHasDiag(GvcLastReport.Diagnostics, codeDropC, p.File.Changes[i].Stmt.Pos))
+//@   loop 1 invariant (forall i int :: 0 <= i && i < loopk && gvcAnyModDrops(p.File, p.File.Changes[i], len(p.File.Changes[i].Changes)) ==>
+//@           gvcHasDiag(diags, codeDropC, p.File.Changes[i].Stmt.Pos))
+//@   loop 2 invariant (forall i int :: 0 <= i && i < loopi1 && gvcAnyModDrops(p.File, p.File.Changes[i], len(p.File.Changes[i].Changes)) ==>
+//@           gvcHasDiag(diags, codeDropC, p.File.Changes[i].Stmt.Pos))
+//@   loop 2 invariant gvcAnyModDrops(p.File, p.File.Changes[loopi1], loopk) ==> gvcHasDiag(diags, codeDropC, p.File.Changes[loopi1].Stmt.Pos)
+//@   loop 3 invariant 0 <= loopk && loopk <= len(c.Changes) && c != nil && c.T != nil
+//@   loop 3 invariant (len(names) > 0) == gvcAnyColDrop(p.File, c, loopk)
+
+//@ func (a *Analyzer) Analyze__view_clean(ctx context.Context, p *sqlcheck.Pass) (err error)
+//@   ensures additive-file-is-clean: gvcNoneDestructive(p.File, len(p.File.Changes)) ==> GvcReports == old(GvcReports) && err == nil
+//@   loop 1 invariant 0 <= loopk && loopk <= len(p.File.Changes)
+//@   loop 1 invariant gvcNoneDestructive(p.File, loopk) ==> len(diags) == 0
+//@   loop 2 invariant gvcNoneDestructive(p.File, loopi1) && !gvcDestructive(p.File, p.File.Changes[loopi1], loopk) ==> len(diags) == 0
+//@   loop 3 invariant 0 <= loopk && loopk <= len(c.Changes) && c != nil && c.T != nil
+//@   loop 3 invariant (len(names) > 0) == gvcAnyColDrop(p.File, c, loopk)
+//@   loop 3 invariant gvcNoneDestructive(p.File, loopi1) && !gvcDestructive(p.File, p.File.Changes[loopi1], loopi2) ==> len(diags) == 0
